@@ -712,10 +712,41 @@ pub struct PtCase {
     pub weather: Option<(f64, f64)>,
     #[serde(default)]
     pub extra: Value,
+    /// exact bit patterns of every real-valued input (decimal JSON text is not guaranteed to read back
+    /// to the same f64 with this JSON library; a frontier case depends on the last bit)
+    #[serde(default)]
+    pub bits: Value,
 }
 impl PtCase {
+    /// restore the exact inputs recorded by `to_value`
+    pub fn fix(mut self) -> PtCase {
+        let b = self.bits.clone();
+        let get = |v: &Value| v.as_str().and_then(|x| x.parse::<u64>().ok()).map(f64::from_bits);
+        for (name, map) in [("angles", &mut self.params.angles), ("intervals", &mut self.params.intervals), ("minutes", &mut self.params.minutes)] {
+            for k in SEQ7 {
+                if let Some(x) = get(&b[name][format!("{:?}", k)]) {
+                    map.insert(k, x);
+                }
+            }
+        }
+        if let (Some(a), Some(o), Some(e), Some(g)) = (get(&b["site"][0]), get(&b["site"][1]), get(&b["site"][2]), get(&b["site"][3])) {
+            self.site = Site::new(a, o, e, g);
+        }
+        if let (Some(p), Some(t)) = (get(&b["weather"][0]), get(&b["weather"][1])) {
+            self.weather = Some((p, t));
+        }
+        self
+    }
+    fn with_bits(&self) -> PtCase {
+        let mut c = self.clone();
+        let m = |h: &HashMap<Prayer, f64>| Value::Object(h.iter().map(|(k, v)| (format!("{:?}", k), json!(v.to_bits().to_string()))).collect());
+        c.bits = json!({"angles": m(&self.params.angles), "intervals": m(&self.params.intervals), "minutes": m(&self.params.minutes),
+            "site": [self.site.lat.to_bits().to_string(), self.site.lon.to_bits().to_string(), self.site.elev.to_bits().to_string(), self.site.gmt.to_bits().to_string()],
+            "weather": self.weather.map(|(p, t)| json!([p.to_bits().to_string(), t.to_bits().to_string()]))});
+        c
+    }
     pub fn new(params: &Params, site: Site, date: NaiveDate) -> PtCase {
-        PtCase { params: params.clone(), site, date, weather: None, extra: Value::Null }
+        PtCase { params: params.clone(), site, date, weather: None, extra: Value::Null, bits: Value::Null }
     }
     pub fn with_extra(mut self, v: Value) -> PtCase {
         self.extra = v;
@@ -732,7 +763,7 @@ impl PtCase {
         prayer_times_dt(&self.params, self.site.loc(), self.date, self.weather())
     }
     pub fn to_value(&self) -> Value {
-        serde_json::to_value(self).unwrap()
+        serde_json::to_value(self.with_bits()).unwrap()
     }
     pub fn key(&self) -> String {
         format!("{}_{}_{}", self.site.key(), self.date, params_key(&self.params))
